@@ -54,6 +54,13 @@ func (e *eventStream) Receive(c *Context) {
 			slog.Log(context.Background(), level, msg, attr...)
 		}
 		for sub := range e.subs {
+			// A local subscriber that is gone (stopped without unsubscribing) is dropped:
+			// forwarding to it would only produce a DeadLetterEvent, which is itself
+			// forwarded to it, which produces the next DeadLetterEvent, and so on forever.
+			if c.engine.isLocalMessage(sub) && c.engine.Registry.get(sub) == nil {
+				delete(e.subs, sub)
+				continue
+			}
 			c.Forward(sub)
 		}
 	}
